@@ -16,13 +16,19 @@ Prim(r) ==
      net |-> [L |-> Range(r.net.L),
               ring |-> [i \in Range(r.net.L) |-> (CHOOSE p \in Range(r.net.ring) : p[1] = i)[2]]],
      lgt |-> [cyc |-> r.lgt.cyc, off |-> r.lgt.off]]
+Band(s, e) ==      \* the query touches a lanelet boundary without meeting its interior: twin and object may differ by float noise
+    CASE e.op = "find_pos"   -> MustByPos(s.net, <<e.arg[1], e.arg[2]>>) # FindByPos(s.net, <<e.arg[1], e.arg[2]>>)
+      [] e.op = "find_shape" -> MustByShape(s.net, <<e.arg[1], e.arg[2]>>, <<1, 1>>) # FindByShape(s.net, <<e.arg[1], e.arg[2]>>, <<1, 1>>)
+      [] OTHER -> FALSE
 IsQuery(op) == op \in {"occ", "state", "find_pos", "find_shape", "light", "polygon", "distance"}
 
 Want(s, e) ==      \* <<decidable by the lattice model, expected answer equals logged answer>>
     CASE e.op = "occ"        -> <<TRUE, {Pair(p) : p \in Range(e.res)} = OccAt(s.ob, e.arg[1])>>
       [] e.op = "state"      -> <<TRUE, e.res = StateAt(s.ob, e.arg[1])>>
-      [] e.op = "find_pos"   -> <<TRUE, Range(e.res) = FindByPos(s.net, <<e.arg[1], e.arg[2]>>)>>
-      [] e.op = "find_shape" -> <<TRUE, Range(e.res) = FindByShape(s.net, <<e.arg[1], e.arg[2]>>, <<1, 1>>)>>
+      [] e.op = "find_pos"   -> <<TRUE, /\ MustByPos(s.net, <<e.arg[1], e.arg[2]>>) \subseteq Range(e.res)
+                                        /\ Range(e.res) \subseteq FindByPos(s.net, <<e.arg[1], e.arg[2]>>)>>
+      [] e.op = "find_shape" -> <<TRUE, /\ MustByShape(s.net, <<e.arg[1], e.arg[2]>>, <<1, 1>>) \subseteq Range(e.res)
+                                        /\ Range(e.res) \subseteq FindByShape(s.net, <<e.arg[1], e.arg[2]>>, <<1, 1>>)>>
       [] e.op = "light"      -> <<TRUE, e.res = LightAt(s.lgt, e.arg[1])>>
       [] e.op = "polygon"    -> <<e.arg[1] \in s.net.L, e.arg[1] \in s.net.L /\ {Pair(p) : p \in Range(e.res)} = Range(s.net.ring[e.arg[1]])>>
       [] OTHER               -> <<FALSE, TRUE>>
@@ -32,7 +38,7 @@ Clause(s, e) ==
     ELSE IF IsQuery(e.op) THEN
          (LET w == Want(s, e) IN
           IF w[1] /\ ~w[2] THEN "C11.Recompute/" \o e.op
-          ELSE IF e.fresh # 1 THEN "C11.Fresh/" \o e.op ELSE "")
+          ELSE IF e.fresh # 1 /\ ~Band(s, e) THEN "C11.Fresh/" \o e.op ELSE "")
     ELSE IF e.op = "update_initial_state" THEN
          (IF Prim(e.post).ob.hist # HistAfter(s.ob, e.arg[4]) THEN "C11.History/content"
           ELSE IF Cardinality(Range(e.hl)) # 1 THEN "C11.History/lengths"
